@@ -312,6 +312,12 @@ static void t_clipperD_open(Rng& g, const Ctx& c, const PathsD& subj, const Path
   c64.AddSubject(scale_paths(subj, c.sD)); c64.AddOpenSubject(scale_paths(open, c.sD)); c64.AddClip(scale_paths(clip, c.sD));
   bool tree = g.chance(35);
   PathsD closedD, openD; Paths64 closed64, open64;
+  if (g.chance(40)) {   // containers that still hold paths from an earlier use: every Execute overload must overwrite them
+    const PathD junkD{PointD(7e8 + 1, 7e8 + 3), PointD(7e8 + 2, 7e8 + 3), PointD(7e8 + 1, 7e8 + 5)};
+    const Path64 junk{Point64(700000001, 700000003), Point64(700000002, 700000003), Point64(700000001, 700000005)};
+    closedD.push_back(junkD); openD.push_back(junkD); openD.push_back(junkD); closed64.push_back(junk); open64.push_back(junk);
+    stat("clipperD.prefilled_containers");
+  }
   if (!tree) {
     bool okD = cd.Execute(ct, fr, closedD, openD), ok64 = c64.Execute(ct, fr, closed64, open64);
     if (okD != ok64) emitF("d-api.ClipperD.Execute", input + " | return values differ");
@@ -364,6 +370,9 @@ static void t_inflate(Rng& g, const Ctx& c, const PathsD& paths, int64_t M) {
   // delta in user units such that the scaled delta is between 1 and M/3 units; delta == 0 is the known finding
   double ds = (double)g.range(1, std::max<int64_t>(2, M / 3)) * (g.chance(35) ? -1.0 : 1.0);
   if (g.chance(30)) ds += g.unit();
+  // sub-unit scaled deltas (non-zero): below half a unit the integer offsetter passes the (rounded, unioned) input through;
+  // the D overload must do the same, not return its raw input
+  if (g.chance(12)) { ds = (0.05 + 0.9 * g.unit()) * (g.coin() ? -1.0 : 1.0); stat("inflate.sub_unit_scaled_delta"); }
   double delta = ds / c.s10;
   if (delta == 0) return;
   double arc = 0.0;
